@@ -340,6 +340,21 @@ let run (op : string) (a : string list) : string =
   | _, [] -> "BAD-CASE"
   | _, field :: rest ->
       let g = split_groups rest in
+      let rec take n l = if n = 0 then [] else match l with [] -> [] | x :: t -> x :: take (n - 1) t in
+      let rec rep x k = if k <= 0 then [] else x :: rep x (k - 1) in
+      let w = if field = "x" then 3 else 1 in
+      (* operands sharing memory are, to the model and the specification, just two lists *)
+      let (op, g) = match op, g with
+        | "alias", [[sub; i; j]; (d :: vs)] ->
+            let (_, k) = storage d in
+            let all = vs @ rep "0" (k * w) in
+            let pre n = "b0" :: take (n * w) all in
+            (sub, [pre (int_of_string i); pre (int_of_string j)])
+        | "alias_clean_divide", [[i; j]; (_ :: vs)] ->
+            let pre n = "b0" :: take n vs in
+            ("clean_divide", [pre (int_of_string i); pre (int_of_string j)])
+        | "same", [[sub]; pg] -> (sub, [pg; pg])
+        | _ -> (op, g) in
       (match op, field with
        | "clean_divide", _ -> run_clean_divide g
        | "xinv", _ -> run_xinv g
